@@ -1820,6 +1820,46 @@ impl<E: Effect> Environment<E> {
     }
 }
 
+/// Read-only views for the verification harness (cargo feature `verif`).
+#[cfg(feature = "verif")]
+impl<E: Effect> Environment<E> {
+    /// process -> worker, sorted by process id.
+    pub fn verif_router(&self) -> Vec<(ProcessId, WorkerId)> {
+        let mut v: Vec<(ProcessId, WorkerId)> =
+            self.process_router.iter().map(|(k, v)| (*k, *v)).collect();
+        v.sort_unstable();
+        v
+    }
+
+    /// awaiter -> (workers still expected, workers that answered), sorted.
+    pub fn verif_pending_awaits(&self) -> Vec<(ProcessId, Vec<WorkerId>, Vec<WorkerId>)> {
+        let mut v: Vec<(ProcessId, Vec<WorkerId>, Vec<WorkerId>)> = self
+            .pending_awaits
+            .iter()
+            .map(|(k, p)| {
+                let mut e: Vec<WorkerId> = p.expected_workers.iter().copied().collect();
+                e.sort_unstable();
+                let mut r: Vec<WorkerId> = p.responses.keys().copied().collect();
+                r.sort_unstable();
+                (*k, e, r)
+            })
+            .collect();
+        v.sort();
+        v
+    }
+
+    /// resource -> owner, sorted by resource id.
+    pub fn verif_resource_ownership(&self) -> Vec<(ResourceId, ProcessId)> {
+        let mut v: Vec<(ResourceId, ProcessId)> = self
+            .resource_ownership
+            .iter()
+            .map(|(k, v)| (*k, *v))
+            .collect();
+        v.sort_unstable();
+        v
+    }
+}
+
 #[cfg(test)]
 impl<E: Effect> Environment<E> {
     /// Test helper: merge a bytecode's types/tuples and return the merged index of its first
